@@ -101,6 +101,10 @@ typedef struct of_2d_parity_cb
 	UINT16*		tab_nb_equ_for_repair;
 	
 		void** repair_symbols_values;
+	/* the two fields below exist in of_linear_binary_code_cb_t: this control block is cast to that
+	 * type by the IT/ML decoders, so the layouts must be identical up to the callbacks. */
+	void		** tmp_tab_symbols;
+	UINT16		nb_tmp_symbols;
 #endif /* } OF_USE_DECODER */
 
 	void 		**encoding_symbols_tab;
